@@ -235,7 +235,7 @@ class transient_outputs:
                     xs=[[g.real('x' + str(k) + str(i)) for i in range(2)] for k in range(3)])
 
     def call(f, vals, h, e, j, xs):
-        circuit = TwoSources.circuit(vals, {'E1': 1, 'J1': 1}, 0)
+        circuit = TwoSources.circuit(vals, {'E1': 0, 'J1': 1}, 0)       # the DC amplitude of the voltage source is 0: its waveform comes from `input`
         seen = []
         tin = np.array([0, h, 2 * h])
         sol = f(circuit=circuit, tin=tin, input={'J1': lambda t: np.array(j), 'E1': lambda t: np.array(e)}, solver=recording_solver(np.array(xs), seen))
@@ -245,6 +245,8 @@ class transient_outputs:
     def ensures(result, vals, h, e, j, xs):
         sol, seen, model, tin = result
         ssm, u, t, x0 = seen[0]
+        if sorted(model.sources) != ['E1', 'J1']:
+            return {'every source of the circuit is an input of the simulation': False}
         inputs = {'E1': e, 'J1': j}
         res = {
             'simulator called once, with the model\'s A and B and the identity output map': len(seen) == 1 and eq(ssm.A, model.A) and eq(ssm.B, model.B)
